@@ -302,8 +302,8 @@ fn for_each_permutation(n: usize, mut f: impl FnMut(&[usize])) {
 pub fn run(thorough: bool) -> i32 {
     let mut rep = Report::new("C03", "model_checking", if thorough { "thorough" } else { "quick" });
     let cfgs = configs(thorough);
-    let perm_nmax = if thorough { 8 } else { 7 };
-    let seq_len = if thorough { 6 } else { 5 };
+    let perm_nmax = if thorough { 9 } else { 7 };
+    let seq_len = if thorough { 7 } else { 5 };
     // work items: (config, kind) kind 0 perms, 1 sequences with repetition, 2 subsets x {fwd,rev}, 3 corruption
     let mut items = Vec::new();
     for ci in 0..cfgs.len() {
@@ -343,7 +343,7 @@ pub fn run(thorough: bool) -> i32 {
                     let nn = n.min(8);
                     for len in 1..=seq_len {
                         let total = (nn as u64).pow(len as u32);
-                        if total > 300_000 {
+                        if total > (if thorough { 3_000_000 } else { 300_000 }) {
                             break;
                         }
                         let mut seq = vec![0usize; len];
